@@ -32,7 +32,21 @@ def o_cont(spec, r, extra):
 def o_step(spec, r, extra):
     if r['status'] != 'ok' or r['ret'] == H_THROW: return True, f"step: {r['status']} / threw"
     o = r['outs'][0]; return (not extra['check'](spec, o)), f"{extra['desc']}: gain={o[0]!r} out={o[1]!r} state={o[2]!r}"
-ORACLES = {'curve': o_curve}
+def o_cstep(spec, r, extra):
+    kind = extra['kind']
+    if kind == 'comp': fs, T, R, W, ta, tr, gs0, x = [spec[i][1] for i in range(8)]
+    else: fs, T, W, ta, tr, gs0, x = [spec[i][1] for i in range(7)]; R = 1
+    if r['status'] != 'ok' or r['ret'] == H_THROW: return True, f"step: {r['status']} / threw"
+    o = r['outs'][0]; L = level(x); gc = py_curve(kind, T, R, W, L) - L
+    wa = math.exp(-math.log(9) / (fs * ta)) if ta > 0 else 0.0; wr = math.exp(-math.log(9) / (fs * tr)) if tr > 0 else 0.0
+    w = wa if gc <= gs0 else wr; gs1 = w * gs0 + (1 - w) * gc; gain = 10 ** (gs1 / 20)
+    bad = abs(o[2] - gs1) > 1e-9 * max(1, abs(gs1)) or abs(o[0] - gain) > 1e-9 or abs(o[1] - x * gain) > 1e-9 * max(1, abs(x))
+    return bad, f"{'Compressor' if kind == 'comp' else 'Limiter'}(T={T}, R={R}, W={W}, attack={ta}, release={tr}) one sample x={x!r} from smoothed gain {gs0} dB: new state {o[2]!r} dB gain {o[0]!r}; the smoothing recursion towards the static curve gives {gs1!r} dB gain {gain!r}"
+def o_agc(spec, r, extra):
+    if r['status'] != 'ok' or r['ret'] == H_THROW: return True, f"agc: {r['status']} / threw"
+    g = r['outs'][2][:spec[6][1]]; lim = 10 ** (spec[1][1] / 20)
+    return max(g) > lim * (1 + 1e-9), f"Agc(max_gain={spec[1][1]} dB): applied gains {g} exceed the limit {lim!r}"
+ORACLES = {'curve': o_curve, 'cstep': o_cstep, 'agc': o_agc}
 
 def Lx(m, x): return m.lower(x)
 
@@ -122,7 +136,16 @@ def job_smooth(res, kind, R, W, ta, tr):
         for claim, desc in claims:
             sol = z3.Solver(); sol.set('timeout', 60000); sol.add(*p.m.pc); sol.add(z3.Not(claim)); c = sol.check(); res.queries += 1
             if c == z3.unsat: res.ob(True, 'NRA+UF', f'{label}: path |pc|={len(p.m.pc)}: forall T, gs0 <= 0, x. {desc}')
-            elif c == z3.sat: res.inc(f'{label}: "{desc}" has a model {str(sol.model())[:200]} (smoothing claim; replay not implemented for internal state)')
+            elif c == z3.sat:
+                mdl = model_dict(sol); Tv = model_float(mdl, 'T', -10.0); g0 = model_float(mdl, 'gs0', -1.0)
+                try: Lv = z3_to_float(sol.model().eval(L, model_completion=True)); xv = 10 ** (Lv / 20) if -300 < Lv < 300 else model_float(mdl, 'x', 0.5)
+                except Exception: xv = model_float(mdl, 'x', 0.5)
+                sp = [('i32', fs), ('f64', Tv)] + ([('i32', R)] if kind == 'comp' else []) + [('f64', W), ('f64', ta), ('f64', tr), ('f64', g0), ('f64', xv), ('pf64', [0.0] * 3)]
+                if not confirm(res, PID, HARNESS, fn, sp, 'i32', 'cstep', ORACLES, f'{name.lower()}:step', f'{label}: "{desc}" fails', extra={'kind': kind}, suspect_is_inconclusive=False):
+                    # second candidate: a sample well below the threshold from a compressed state (release phase)
+                    sp2 = list(sp); sp2[-2] = ('f64', 10 ** ((Tv - 30) / 20)); sp2[-3] = ('f64', -6.0)
+                    confirm(res, PID, HARNESS, fn, sp2, 'i32', 'cstep', ORACLES, f'{name.lower()}:step', f'{label}: "{desc}" fails (release-phase candidate)', extra={'kind': kind})
+                break
             else: res.inc(f'{label}: "{desc}" undecided')
 
 def job_gate(res, th, ta, tr):
@@ -164,10 +187,22 @@ def job_agc(res, n):
             if not (gi.op == 'call' and gi.args[0] == 'exp'): ok = False; bad = f'gain[{i}] is not exp(.)'; break
             a = gi.args[1]; az = p.m.lower(a) if isF(a) else z3.RealVal(Fraction(a))
             sol = z3.Solver(); sol.set('timeout', 60000); sol.add(*p.m.pc); sol.add(az > z3.RealVal(Fraction(lim))); c = sol.check(); res.queries += 1
-            if c != z3.unsat: ok = False; bad = f'log-gain at step {i} can exceed log(10^(max_gain/20)) ({c})'; break
+            if c != z3.unsat:
+                ok = False; bad = f'log-gain at step {i} can exceed log(10^(max_gain/20)) ({c})'
+                if c == z3.sat:
+                    mdl = model_dict(sol); xv = [model_float(mdl, f'x{j}', 0.01) for j in range(n)]
+                    if confirm(res, PID, HARNESS, 'h_agc_run', [('f64', 1.0), ('f64', maxg), ('i32', 2), ('f64', 0.3), ('f64', 0.2), ('pf64', xv), ('i32', n), ('pf64', [0.0] * n), ('pf64', [0.0] * n)], 'i32', 'agc', ORACLES, 'agc:max-gain',
+                               f'Agc: the applied gain can exceed max_gain (step {i})', suspect_is_inconclusive=False): bad = None
+                    else:
+                        # the model's log() values are uninterpreted; replay the structural finding with steady inputs whose required gain lies just above the limit
+                        for over in (1.0, 2.0, 4.0):
+                            xs_ = [10 ** (-(maxg + over) / 20)] * 400
+                            if confirm(res, PID, HARNESS, 'h_agc_run', [('f64', 1.0), ('f64', maxg), ('i32', 2), ('f64', 0.3), ('f64', 0.2), ('pf64', xs_), ('i32', 400), ('pf64', [0.0] * 400), ('pf64', [0.0] * 400)], 'i32', 'agc', ORACLES, 'agc:max-gain',
+                                       f'Agc: the applied gain can exceed max_gain (steady input needing {over} dB more than max_gain)', suspect_is_inconclusive=False): bad = None; break
+                break
             if not (isF(outs[i]) and outs[i].op == 'fmul' and (outs[i].args[0] is gi or outs[i].args[1] is gi)): ok = False; bad = f'out[{i}] is not x*gain'; break
         if ok: res.ob(True, 'NRA+UF', f'Agc {n} samples path |pc|={len(p.m.pc)}: every applied gain is exp(g) with g <= log(10^(max_gain/20)) (axiom: exp monotone => gain <= max_gain), out = x * gain')
-        else: res.inc(f'Agc: {bad}')
+        elif bad: res.inc(f'Agc: {bad}')
 
 JOBFNS = {'curve': job_curve, 'monotone': job_monotone, 'smooth': job_smooth, 'gate': job_gate, 'agc': job_agc}
 
